@@ -150,6 +150,105 @@ def make(max_files):
     return mk, replay
 
 
+def native_end_to_end(tier):
+    """real files, real argv parsing; main() in-process (quick) and python -m cutplace.applications as a subprocess
+    (thorough) -- exploration, not a solver verdict"""
+    import contextlib
+    import io
+    import itertools
+    import os
+    import shutil
+    import subprocess
+    import sys
+    import tempfile
+    from cutplace import applications
+    failures = []
+    samples = []
+    n = 0
+    d = tempfile.mkdtemp()
+    try:
+        good_cid = os.path.join(d, "cid.csv")
+        open(good_cid, "w").write("d,format,delimited\nf,k,,,1\nc,u,IsUnique,k\n")
+        bad_cid = os.path.join(d, "bad_cid.csv")
+        open(bad_cid, "w").write("d,format,nonsense\nf,k\n")
+        files = {"accepted": "a\nb\n", "rejected-field": "a\ntoolong\n", "rejected-unique": "a\na\n", "sibling-keys": "b\na\n"}
+        paths = {}
+        for name, text in files.items():
+            paths[name] = os.path.join(d, name + ".csv")
+            open(paths[name], "w").write(text)
+        paths["missing"] = os.path.join(d, "no-such-file.csv")
+        paths["directory"] = d
+
+        def expected(cid, names):
+            if cid == "missing":
+                return (3,)
+            if cid == "rejected":
+                return (1,)
+            rej = any(x.startswith("rejected") for x in names)
+            unread = any(x in ("missing", "directory") for x in names)
+            return (1, 3) if (rej and unread) else (3,) if unread else (1,) if rej else (0,)
+
+        combos = []
+        names = list(paths)
+        for k in (0, 1, 2):
+            for combo in itertools.permutations(names, k):
+                combos.append(combo)
+        if tier == "quick":
+            combos = combos[:1] + combos[1:7] + combos[7::3]
+        for cid_kind, cid_path in (("valid", good_cid), ("rejected", bad_cid), ("missing", os.path.join(d, "nocid.csv"))):
+            for combo in (combos if cid_kind == "valid" else combos[:3]):
+                n += 1
+                argv = ["cutplace", "--log", "critical", cid_path] + [paths[x] for x in combo]
+                with contextlib.redirect_stderr(io.StringIO()):
+                    try:
+                        code = applications.main(argv)
+                    except SystemExit as e:
+                        code = "exit%s" % e.code
+                exp = expected(cid_kind, combo)
+                if code not in exp:
+                    failures.append(dict(key="exit-code-e2e", what="CID %s, files %r -> exit code %r, expected one of %r" % (
+                        cid_kind, combo, code, exp), args=dict(cid=cid_kind, files=list(combo))))
+                elif len(samples) < 2:
+                    samples.append(dict(query="native/e2e", cid=cid_kind, files=list(combo), exit_code=code))
+        # --until: same effect as the API's limit
+        lim = os.path.join(d, "limit.csv")
+        open(lim, "w").write("a\nb\ntoolong\nc\n")
+        for until, exp in ((None, 1), (-1, 1), (0, 0), (1, 0), (2, 0), (3, 1), (9, 1)):
+            n += 1
+            argv = ["cutplace", "--log", "critical"] + ([] if until is None else ["--until", str(until)]) + [good_cid, lim]
+            with contextlib.redirect_stderr(io.StringIO()):
+                code = applications.main(argv)
+            if code != exp:
+                failures.append(dict(key="exit-code-until", what="--until %r with a bad row 3 -> exit code %r, expected %r" % (until, code, exp),
+                                     args=dict(until=until)))
+        for bad in ("-2", "x", ""):
+            n += 1
+            with contextlib.redirect_stderr(io.StringIO()):
+                try:
+                    code = applications.main(["cutplace", "--until", bad, good_cid, lim])
+                except SystemExit as e:
+                    code = "exit%s" % e.code
+            if code != "exit2":
+                failures.append(dict(key="exit-code-until", what="--until %r -> %r, expected exit code 2" % (bad, code), args=dict(until=bad)))
+        if tier == "thorough":
+            env = dict(os.environ, PYTHONPATH=os.environ.get("VERIF_REPO", "/repo"))
+            for combo, exp in (((), (0,)), (("accepted",), (0,)), (("rejected-field", "accepted"), (1,)), (("missing",), (3,)),
+                               (("accepted", "rejected-unique"), (1,))):
+                n += 1
+                r = subprocess.run([sys.executable, "-m", "cutplace.applications", good_cid] + [paths[x] for x in combo],
+                                   env=env, capture_output=True, timeout=120)
+                if r.returncode not in exp:
+                    failures.append(dict(key="exit-code-subprocess", what="subprocess with files %r -> %d, expected %r" % (combo, r.returncode, exp),
+                                         args=dict(files=list(combo))))
+            n += 1
+            r = subprocess.run([sys.executable, "-m", "cutplace.applications"], env=env, capture_output=True, timeout=120)
+            if r.returncode != 2:
+                failures.append(dict(key="exit-code-subprocess", what="subprocess without arguments -> %d, expected 2" % r.returncode, args={}))
+    finally:
+        shutil.rmtree(d)
+    return dict(count=n, failures=failures, samples=samples)
+
+
 def build(tier, seed):
     mk, rp = make(3)
     q = [Query("C18/aggregation/files<=3", "exit-code", mk,
@@ -163,7 +262,7 @@ def build(tier, seed):
                    expect=("exit2", "all", "zero", "some"), replay=rp2, functions=FUNCS,
                    stubs=("S-ARGS argparse.ArgumentParser.parse_args -> Namespace with symbolic validate_until",
                           "CutplaceApp.set_cid_from_path -> recorder")))
-    return dict(queries=q,
+    return dict(queries=q, native=lambda: native_end_to_end(tier),
                 assumptions=["an unreadable file surfaces as OSError from the reader / CID loader",
                              "when a rejected and an unreadable file are both present either 1 or 3 is accepted (the property "
                              "does not rank them)"],
